@@ -105,9 +105,20 @@ TbIsRow(row, n) == /\ Len(row.x) = n /\ Len(row.z) = n /\ row.r \in {0, 1}
                    /\ \A j \in 1..n : row.x[j] \in {0, 1} /\ row.z[j] \in {0, 1}
 TbShape(tab, n) == Len(tab) = 2 * n /\ \A i \in 1..2*n : TbIsRow(tab[i], n)
 TbStabCommute(tab, n) == \A i, j \in n+1..2*n : TbAnti(tab[i], tab[j]) = 0
-\* no non-empty product of the stabilizer generators is (+-) the identity: GF(2) independence of the (x|z) vectors
-TbXorRows(tab, S, n) == [j \in 1..2*n |-> Cardinality({i \in S : (IF j <= n THEN tab[i].x[j] ELSE tab[i].z[j-n]) = 1}) % 2]
-TbStabIndependent(tab, n) == \A S \in (SUBSET (n+1..2*n)) \ {{}} : \E j \in 1..2*n : TbXorRows(tab, S, n)[j] = 1
+\* no non-empty product of the stabilizer generators is (+-) the identity: the GF(2) rank of their (x|z) vectors is n
+\* (Gaussian elimination, one column per level of the recursion)
+TbXZ(row) == row.x \o row.z
+TbVecXor(u, v) == [j \in 1..Len(u) |-> TbXor(u[j], v[j])]
+RECURSIVE TbRank(_, _)
+TbRank(vs, col) ==
+  IF vs = <<>> \/ col > Len(vs[1]) THEN 0
+  ELSE LET piv == {i \in 1..Len(vs) : vs[i][col] = 1} IN
+       IF piv = {} THEN TbRank(vs, col + 1)
+       ELSE LET p == CHOOSE i \in piv : \A j \in piv : i <= j
+                rest == TLCEval([k \in 1..Len(vs)-1 |-> LET i == IF k < p THEN k ELSE k + 1 IN
+                                   IF vs[i][col] = 1 THEN TbVecXor(vs[i], vs[p]) ELSE vs[i]])
+            IN 1 + TbRank(rest, col + 1)
+TbStabIndependent(tab, n) == TbRank([i \in 1..n |-> TbXZ(tab[n+i])], 1) = n
 \* destabilizer i anticommutes with stabilizer i only; destabilizers commute with each other
 TbPairing(tab, n) == /\ \A i, j \in 1..n : TbAnti(tab[i], tab[n+j]) = (IF i = j THEN 1 ELSE 0)
                      /\ \A i, j \in 1..n : TbAnti(tab[i], tab[j]) = 0
